@@ -314,7 +314,7 @@ def fresh_jobs(ctx, thorough, rnd):
     import tzgen
     out = []
     long, stats, kept = tzexpand.expand(open(os.path.join(vt.VERIF, "tzsrc", "2025b", "tzdata.zi")).read())
-    out += compile_fresh(ctx, "real2025b", long, 1995, 2040, (lambda n: n) if thorough else (lambda n: rnd.sample(n, 40)), False)
+    out += compile_fresh(ctx, "real2025b", long, 1995, 2040, (lambda n: n) if thorough else (lambda n: rnd.sample(n, 40)), thorough)
     objs = tzgen.systematic_sources(False)
     if not thorough:
         objs = rnd.sample(objs, 110)
@@ -345,7 +345,7 @@ def fresh_jobs(ctx, thorough, rnd):
         m = re.match(r"Gen/S(\d+)", z)
         return tzgen.render(objs[int(m.group(1))]) if m else None
 
-    out += compile_fresh(ctx, "generated", text, 2000, 2050, None, False, singles=single)
+    out += compile_fresh(ctx, "generated", text, 2000, 2050, None, thorough, singles=single)
     out += compile_fresh(ctx, "seconds", SECONDS_SOURCE, 1965, 2000, None, True)
     return out
 
